@@ -116,6 +116,8 @@ NAMINGS = {
     'tuple': lambda i: (i, 'x'),
     'mixed': lambda i: [0, 'one', (2, 2), frozenset([3]), 4.5, 'five', (6,), 7, 'eight', (9, 9), 10, '11', 12][i % 13] if i < 13 else i,
     'neg': lambda i: -i - 1,
+    # falsy and None node objects (legal hashables; only used for plain digraphs: Kripke.labels(None) means "all labels")
+    'falsy': lambda i: [None, 0, '', (), frozenset(), 'x', (0,), -1, 'None', 2.5, (None,), 'y', 7][i] if i < 13 else i,
 }
 
 
